@@ -22,6 +22,7 @@ import (
 	"net/http"
 	"net/http/httptest"
 	"os"
+	"os/exec"
 	"path/filepath"
 	"runtime"
 	"sort"
@@ -59,11 +60,17 @@ type stepIn struct {
 	Reply  int             `json:"reply"` // status the upload server answers with
 	Files  []fileIn        `json:"files"` // count files that appear before this run
 	Start  string          `json:"start"` // RFC3339 start time of this run
+	Fresh  bool            `json:"fresh"` // run upload.Run in a fresh process instead of this one
 }
 
 type caseIn struct {
 	ID    int      `json:"id"`
 	Mode  string   `json:"mode"` // contents of the mode file
+	// OneProxy: the machine of this case talks to ONE config proxy with one
+	// environment for all its runs; a step whose (cfg, cfgver) is new
+	// publishes that version there before the run ("latest" then resolves to
+	// it).  Otherwise every distinct configuration has a proxy of its own.
+	OneProxy bool `json:"oneproxy"`
 	Steps []stepIn `json:"steps"`
 }
 
@@ -137,6 +144,33 @@ type proxies struct {
 	mu   sync.Mutex
 	base string
 	env  map[string][]string
+	pub  map[string]bool
+}
+
+// publish makes (cfg, ver) the newest version on the proxy of one machine and
+// returns that machine's (constant) environment.
+func (p *proxies) publish(machine string, cfg []byte, ver string) ([]string, error) {
+	p.mu.Lock()
+	defer p.mu.Unlock()
+	dir := filepath.Join(p.base, machine)
+	pk := machine + "@" + ver
+	if !p.pub[pk] {
+		dp := configstore.ModulePath + "@" + ver + "/"
+		if _, err := proxy.WriteProxy(filepath.Join(dir, "proxy"), map[string][]byte{
+			dp + "go.mod":      []byte("module " + configstore.ModulePath + "\n\ngo 1.20\n"),
+			dp + "config.json": cfg,
+		}); err != nil {
+			return nil, err
+		}
+		p.pub[pk] = true
+	}
+	if e, ok := p.env[machine]; ok {
+		return e, nil
+	}
+	e := []string{"GOPROXY=file://" + filepath.ToSlash(filepath.Join(dir, "proxy")), "GONOSUMDB=*", "GONOSUMCHECK=1", "GOSUMDB=off", "GOFLAGS=-modcacherw",
+		"GOMODCACHE=" + filepath.Join(dir, "modcache")}
+	p.env[machine] = e
+	return e, nil
 }
 
 func (p *proxies) envFor(cfg []byte, ver string) ([]string, error) {
@@ -275,7 +309,13 @@ func runStep(c *caseIn, k int, dir string, px *proxies, srv *server, xr *xReader
 		rec["infra"] = "writing count files: " + err.Error()
 		return rec
 	}
-	env, err := px.envFor(st.Cfg, st.CfgVer)
+	var env []string
+	var err error
+	if c.OneProxy {
+		env, err = px.publish("m"+key, st.Cfg, st.CfgVer)
+	} else {
+		env, err = px.envFor(st.Cfg, st.CfgVer)
+	}
 	if err != nil {
 		rec["infra"] = "proxy: " + err.Error()
 		return rec
@@ -294,22 +334,15 @@ func runStep(c *caseIn, k int, dir string, px *proxies, srv *server, xr *xReader
 	}
 	done := make(chan string, 1)
 	draws := make(chan int, 1)
-	go func() {
-		// computeRandom is called on the goroutine that calls upload.Run
-		unreg := xr.register(xs)
-		defer func() { draws <- unreg() }()
-		defer func() {
-			if r := recover(); r != nil {
-				done <- fmt.Sprintf("panic: %v", r)
-			}
+	if st.Fresh {
+		go func() {
+			msg, n := runChild(childIn{Dir: dir, URL: srv.srv.URL + "/" + key, Env: env, Start: st.Start, Xs: xs})
+			draws <- n
+			done <- msg
 		}()
-		err := upload.Run(upload.RunConfig{TelemetryDir: dir, UploadURL: srv.srv.URL + "/" + key, Env: env, StartTime: start})
-		if err != nil {
-			done <- "error: " + err.Error()
-			return
-		}
-		done <- ""
-	}()
+	} else {
+		go runHere(dir, srv.srv.URL+"/"+key, env, start, xs, xr, done, draws)
+	}
 	select {
 	case msg := <-done:
 		rec["err"] = msg
@@ -324,9 +357,89 @@ func runStep(c *caseIn, k int, dir string, px *proxies, srv *server, xr *xReader
 	return rec
 }
 
+// ---- one upload.Run, in this process or in a fresh one --------------------------------
+
+func runHere(dir, url string, env []string, start time.Time, xs []float64, xr *xReader, done chan string, draws chan int) {
+	{
+		// computeRandom is called on the goroutine that calls upload.Run
+		unreg := xr.register(xs)
+		defer func() { draws <- unreg() }()
+		defer func() {
+			if r := recover(); r != nil {
+				done <- fmt.Sprintf("panic: %v", r)
+			}
+		}()
+		err := upload.Run(upload.RunConfig{TelemetryDir: dir, UploadURL: url, Env: env, StartTime: start})
+		if err != nil {
+			done <- "error: " + err.Error()
+			return
+		}
+		done <- ""
+	}
+}
+
+type childIn struct {
+	Dir   string    `json:"dir"`
+	URL   string    `json:"url"`
+	Env   []string  `json:"env"`
+	Start string    `json:"start"`
+	Xs    []float64 `json:"xs"`
+	Out   string    `json:"out"`
+}
+
+// runChild re-executes the test binary for one upload.Run: a process that has
+// run nothing before (no package-level state left by earlier runs).
+func runChild(in childIn) (string, int) {
+	f, err := os.CreateTemp("", "c01child-*.json")
+	if err != nil {
+		return "error: child: " + err.Error(), 0
+	}
+	defer os.Remove(f.Name())
+	in.Out = f.Name() + ".out"
+	defer os.Remove(in.Out)
+	json.NewEncoder(f).Encode(in)
+	f.Close()
+	cmd := exec.Command(os.Args[0], "-test.run=^TestVerifC01Run$", "-test.count=1")
+	cmd.Env = append(os.Environ(), "VERIF_C01_CHILD="+f.Name())
+	if out, err := cmd.CombinedOutput(); err != nil {
+		return fmt.Sprintf("error: child process: %v: %s", err, out), 0
+	}
+	var res struct {
+		Err   string `json:"err"`
+		Draws int    `json:"draws"`
+	}
+	data, err := os.ReadFile(in.Out)
+	if err != nil || json.Unmarshal(data, &res) != nil {
+		return "error: child wrote no result", 0
+	}
+	return res.Err, res.Draws
+}
+
+func childMain(path string) {
+	var in childIn
+	data, _ := os.ReadFile(path)
+	if json.Unmarshal(data, &in) != nil {
+		os.Exit(3)
+	}
+	xr := &xReader{seqs: map[uint64]*xSeq{}}
+	rand.Reader = xr
+	start, _ := time.Parse(time.RFC3339, in.Start)
+	done := make(chan string, 1)
+	draws := make(chan int, 1)
+	go runHere(in.Dir, in.URL, in.Env, start, in.Xs, xr, done, draws)
+	msg := <-done
+	n := <-draws
+	out, _ := json.Marshal(map[string]any{"err": msg, "draws": n})
+	os.WriteFile(in.Out, out, 0666)
+}
+
 // TestVerifC01Run executes the cases of $VERIF_IN: the steps of a case in
 // order, the cases in parallel.
 func TestVerifC01Run(t *testing.T) {
+	if p := os.Getenv("VERIF_C01_CHILD"); p != "" {
+		childMain(p)
+		return
+	}
 	defer rt.Flush()
 	var in struct {
 		Cases []caseIn `json:"cases"`
@@ -338,7 +451,7 @@ func TestVerifC01Run(t *testing.T) {
 	xr := &xReader{seqs: map[uint64]*xSeq{}}
 	rand.Reader = xr
 	base := t.TempDir()
-	px := &proxies{base: filepath.Join(base, "px"), env: map[string][]string{}}
+	px := &proxies{base: filepath.Join(base, "px"), env: map[string][]string{}, pub: map[string]bool{}}
 	srv := newServer()
 	defer srv.srv.Close()
 	par := in.Par
